@@ -56,16 +56,18 @@ def _leaf_fn(I, leaf):
     m = I.model
     if m is None:
         r = s.check()
-        if r != z3.sat:
-            res['unsupported'] = 'leaf path condition not satisfiable/unknown: %s' % r
+        if r == z3.unknown:
+            r = I.check_split([])
+        if r == z3.unsat:
+            res['unsupported'] = 'leaf path condition not satisfiable'
             res['decisions'] = sorted(leaf.decisions.items())
             return res
-        m = s.model()
-    wargs = [m.eval(x, model_completion=True).as_long() for x in a]
+        m = s.model() if r == z3.sat else None
+    wargs = [m.eval(x, model_completion=True).as_long() for x in a] if m is not None else None
     res['witness'] = wargs
     if leaf.kind == 'ret':
         py = val_to_py(leaf.value)
-        res['expected'] = concretize_py(py, m)
+        res['expected'] = concretize_py(py, m) if m is not None else None
         res['outcome'] = py[0] if isinstance(py, list) and py and isinstance(py[0], str) else 'val'
     else:
         py = None
@@ -84,6 +86,12 @@ def _leaf_fn(I, leaf):
             s.add(q.negation)
             for _ in range(64):
                 r = s.check()
+                if r == z3.unknown:
+                    qr['split'] = True
+                    saved_pc = I.pc
+                    I.pc = list(I.pc) + [q.negation]
+                    try: r = I.check_split([])
+                    finally: I.pc = saved_pc
                 if r == z3.unsat: break
                 if r == z3.unknown:
                     qr['status'] = 'unknown'; qr['reason'] = s.reason_unknown(); break
@@ -106,6 +114,7 @@ def _leaf_fn(I, leaf):
         finally:
             s.pop()
         qr['s'] = round(time.time() - t0, 3)
+        if qr['s'] > 5: qr['slow_pc'] = [str(c) for c in I.pc]
         res['queries'].append(qr)
     return res
 
@@ -172,7 +181,7 @@ class Run:
         self.called.update(st['called']); self.modelled.update(st['modelled']); self.summarized.update(st['summarized'])
         if st['truncated']: self.unsupported.append({'slice': sl.name, 'unsupported': 'exploration truncated (time/leaf limit)'})
         self.query_s = getattr(self, 'query_s', 0.0) + sum(q['s'] for r in results if 'queries' in r for q in r['queries'])
-        self.slowq = sorted(((q['s'], q['name'], r['outcome']) for r in results if 'queries' in r for q in r['queries']), reverse=True)[:10]
+        self.slowq = sorted(((q['s'], q['name'], r['outcome'], r['witness'], q.get('slow_pc')) for r in results if 'queries' in r for q in r['queries']), reverse=True)[:10]
         for r in results:
             if 'unsupported' in r:
                 r = dict(r); r['slice'] = sl.name
@@ -180,15 +189,24 @@ class Run:
             self.leaves += 1; self.forks += r['forks']
             info['outcomes'][r['outcome']] = info['outcomes'].get(r['outcome'], 0) + 1
             # differential validation of the leaf's witness on the native build
-            if r['kind'] == 'unbounded':
+            if r['witness'] is None:
+                self.unvalidated = getattr(self, 'unvalidated', 0) + 1
+                continue_validation = False
+            else:
+                continue_validation = True
+            if not continue_validation:
+                nat = None
+            elif r['kind'] == 'unbounded':
                 nat = S.replay_once(sl.template, r['witness'], timeout=20)
             else:
                 nat = S.replay(sl.template, r['witness'])
-            if same_outcome(nat, r['expected']):
+            if not continue_validation:
+                pass
+            elif same_outcome(nat, r['expected']):
                 self.validated += 1
             else:
                 self.mismatches.append({'slice': sl.name, 'args': r['witness'], 'interpreted': r['expected'], 'native': nat})
-            if len(self.samples) < 12 and (self.leaves % 37 == 1 or len(self.samples) < 3):
+            if continue_validation and len(self.samples) < 12 and (self.leaves % 37 == 1 or len(self.samples) < 3):
                 self.samples.append({'slice': sl.name, 'args': [to_i64(x) for x in r['witness']], 'outcome': r['outcome'],
                                      'native': _short(nat), 'queries': [(q['name'], q['status']) for q in r['queries']]})
             for q in r['queries']:
@@ -297,6 +315,7 @@ class Run:
                 'std_models_used': sorted(self.modelled),
                 'known_findings_hit': {k: v['count'] for k, v in self.known.items()},
                 'model_mismatches': len(self.mismatches),
+                'leaves_without_witness_model (solver timeout)': getattr(self, 'unvalidated', 0),
                 'inconclusive': [u.get('unsupported', '')[:300] for u in self.unsupported[:10]],
             },
             'assumptions': list(getattr(prop, 'ASSUMPTIONS', [])) + [
